@@ -337,6 +337,74 @@ def check_c10(tier, seed):
                         if (a.grad is None) != (a2.grad is None) or (a.grad is not None and not np.array_equal(a.grad, a2.grad)):
                             b.fail("C10.bounded.array_equivalence", desc, "gradients differ when the constant tensor is replaced by an ndarray")
                     b.case(desc)
+    # chains of ops (view-producing and not) with the flag forced at any step: the result of a step without an explicit flag is constant
+    # exactly when all of ITS OWN inputs are -- not the owner of its memory, not an earlier ancestor
+    steps = [
+        ("reshape", True, lambda t, k: mg.reshape(t, (-1,) if t.ndim != 1 else (1, -1), constant=k)),
+        ("[1:]", True, lambda t, k: t[1:] if k is None else None),
+        ("transpose", True, lambda t, k: mg.transpose(t, constant=k)),
+        ("[0]", True, lambda t, k: t[0] if (k is None and t.ndim > 1) else None),
+        ("*2", False, lambda t, k: mg.multiply(t, 2.0, constant=k)),
+        ("exp", False, lambda t, k: mg.exp(t * 0.1, constant=k) if k is not None else mg.exp(t * 0.1)),
+    ]
+    for base_const in (False, True):
+        for L in (2, 3):
+            for chain in itertools.product(range(len(steps)), repeat=L):
+                for forced in itertools.product((None, True, False), repeat=L):
+                    if sum(1 for f_ in forced if f_ is not None) > 1:
+                        continue
+                    x = mg.tensor(rng.uniform(1, 2, size=6).reshape(3, 2), constant=base_const)
+                    cur, flag, ok = x, base_const, True
+                    flags = []
+                    for j, k in zip(chain, forced):
+                        nxt_ = steps[j][2](cur, k)
+                        if nxt_ is None:
+                            ok = False
+                            break
+                        flag = flag if k is None else k
+                        flags.append((nxt_, flag))
+                        cur = nxt_
+                    if not ok:
+                        continue
+                    desc = dict(chain=[steps[j][0] for j in chain], forced=[None if f_ is None else bool(f_) for f_ in forced], base_constant=base_const)
+                    b.count("flag inference along a chain")
+                    for n_, (t, fl) in enumerate(flags):
+                        if t.constant is not fl:
+                            b.fail("C10.bounded.infer.chain_flag", dict(desc, step=n_), f"step {n_}: constant={t.constant}, expected {fl} (all of its inputs constant <=> constant, unless given)")
+                            break
+                    else:
+                        try:
+                            (cur * 1.0).sum().backward()
+                        except Exception as e:
+                            b.fail("C10.bounded.infer.raises", desc, f"{type(e).__name__}: {e}")
+                            continue
+                        for n_, (t, fl) in enumerate(flags):
+                            if fl and t.grad is not None:
+                                b.fail("C10.bounded.nograd", dict(desc, step=n_), "constant tensor acquired a gradient")
+                                break
+                        # every non-constant member downstream of the last constant one contributes to the loss: it has a gradient,
+                        # and the same one as in the program where the constant base tensor is replaced by a plain NumPy array
+                        last_const = max([n_ for n_, (t, fl) in enumerate(flags) if fl] + [-1])
+                        twin = None
+                        if base_const:
+                            cur2, twin = x.data.copy(), []
+                            for j, k in zip(chain, forced):
+                                cur2 = steps[j][2](cur2, k)  # an ndarray stays an ndarray through NumPy-level views, becomes a tensor in a mygrad function
+                                twin.append(cur2)
+                            try:
+                                (twin[-1] * 1.0).sum().backward()
+                            except Exception:
+                                twin = None
+                        for n_, (t, fl) in enumerate(flags):
+                            if fl or n_ < last_const:
+                                continue
+                            if t.grad is None:
+                                b.fail("C10.bounded.nonconstant_without_grad", dict(desc, step=n_), "a non-constant tensor the loss depends on has no gradient")
+                                break
+                            if twin is not None and isinstance(twin[n_], Tensor) and twin[n_].grad is not None and not np.array_equal(twin[n_].grad, t.grad):
+                                b.fail("C10.bounded.array_equivalence", dict(desc, step=n_), "gradient differs from the program with the constant base replaced by an ndarray")
+                                break
+                    b.case(desc)
     # an in-place target keeps its own flag
     for tconst, vconst in itertools.product([False, True], repeat=2):
         for how in ("setitem", "iadd", "out=", "imul-view"):
@@ -505,6 +573,22 @@ def check_c11(tier, seed):
                 return t
 
             agree(name + "[augmented]", outf, aug, [x1, x2], consts, dict(op=name, A="mg(t,c,out=t)", B="augmented operator", consts=consts))
+    # operators with a scalar on either side, for every scalar value that could be special-cased and every tensor dtype family: the
+    # operator, the reflected operator and the function must record the same operation (value, dtype, flag, gradients)
+    scal = [1, 1.0, True, 2, -1, 0.5, 0, np.int64(1), np.float64(1.0), np.float32(2.0), np.int8(1)]
+    for name, o, io_ in opers[:4]:
+        mgf = getattr(mg, name)
+        for dt in (np.float64, np.float32, np.int64, np.int8):
+            xv = (rng.uniform(1, 4, size=(2, 3))).astype(dt)
+            for sv in scal:
+                if name == "divide" and sv == 0:
+                    continue
+                sd = f"{type(sv).__name__}:{sv}"
+                agree(name + "[operator-scalar]", lambda a: mgf(a, sv), lambda a: o(a, sv), [xv], [None], dict(op=name, dtype=np.dtype(dt).name, scalar=sd, A="mg(t,s)", B="t <op> s"))
+                agree(name + "[roperator-scalar]", lambda a: mgf(sv, a), lambda a: o(sv, a), [xv], [None], dict(op=name, dtype=np.dtype(dt).name, scalar=sd, A="mg(s,t)", B="s <op> t"))
+                if not isinstance(sv, np.generic):
+                    agree(name + "[rdunder-scalar]", lambda a: mgf(sv, a), lambda a: getattr(a, "__r" + {"add": "add", "subtract": "sub", "multiply": "mul", "divide": "truediv"}[name] + "__")(sv), [xv], [None],
+                          dict(op=name, dtype=np.dtype(dt).name, scalar=sd, A="mg(s,t)", B="t.__r<op>__(s)"))
     for e in (1, 2, 3, 2.0, 0.5, np.array(2), np.array(1.0)):
         agree("power[operator-scalar]", lambda a: mg.power(a, e), lambda a: a ** e, [x1], [False], dict(op="power", exponent=repr(e), A="mg.power", B="**"))
 
